@@ -76,4 +76,25 @@ def qvToExtH (l : List QV) (outH outV : Int) (maxH minH : Dy) : Outcome (List Ex
   | none => .err
   | some ls => .ok (dedup ls.flatten)
 
+/-- the same conversion with the height pair of EVERY ELEMENT (the Go object carries its own `maxHeight`/`minHeight`): an element
+is read in the index form when its two heights are equal, in the bit form when max > min, and makes the call fail otherwise -/
+def qvToExtM (l : List (QV × Dy × Dy)) (outH outV : Int) : Outcome (List Ext) :=
+  if !extCheckZoom outH outV then .err else
+  let one (t : QV × Dy × Dy) : Option (List Ext) :=
+    let e := t.1; let maxH := t.2.1; let minH := t.2.2
+    if !qkCheckZoom e.qz e.vz then none
+    else if e.q > 4611686018427388064 then none
+    else
+      let (x, y) := qkDec e.q e.qz
+      if F64.eq maxH minH then
+        some ((hZoomIdx e.qz x y outH).flatMap fun p => (vZoomIdx e.vz e.vi outV).map fun f => ⟨outH, p.1, p.2, outV, f⟩)
+      else if lt minH maxH then
+        if e.vi > pow2 (e.vz + 1) then none else
+        let vs := b2v e.vz e.vi outV maxH minH
+        some ((hZoomIdx e.qz x y outH).flatMap fun p => vs.map fun f => ⟨outH, p.1, p.2, outV, f⟩)
+      else none
+  match l.mapM one with
+  | none => .err
+  | some ls => .ok (dedup ls.flatten)
+
 end SpatialId
